@@ -29,3 +29,131 @@ prop(
     ],
     floor={"quick": 200, "thorough": 5000},
 )
+
+prop(
+    "C10",
+    title="Intersection obeys set-intersection laws",
+    level="exploration",
+    technique="property-based testing against set-theoretic bounds and algebraic laws (rapid)",
+    design_ref="DESIGN.md §5 C10",
+    rule=("rapid draws pairs (A,B) of node lists over a five-id pool (disjoint, nested, identical, cyclic, ill-formed with dangling "
+          "references), attributes by reflection. Non-trivial = 0 < |shared nodes| < min(|A|,|B|) and an edge crosses the boundary of "
+          "the shared set; distinct = distinct digest of both operands' wire bytes."),
+    assumptions=["node identifiers inside one operand are pairwise distinct"],
+    level_text=("Random search with shrinking: node set must equal the set intersection, roots and edge triples must lie between the "
+                "stated lower and upper bounds, the laws (idempotence, commutativity on sets, absorption, empty annihilator) and the "
+                "second-operand-wins attribute rule are checked field by field by reflection."),
+    level_note="trusts rapid, protobuf reflection and the harness's set model (harness/props/c10_test.go)",
+    jobs=[{"test": "TestC10", "checks": 4000, "timeout": 300, "thorough": {"checks": 60000, "shards": 16, "timeout": 1500}}],
+    floor={"quick": 100, "thorough": 3000},
+)
+
+prop(
+    "C08",
+    title="Graph-editing operations preserve well-formedness",
+    level="exploration",
+    technique="stateful (model-based) property testing with rapid state machines + bounded-exhaustive enumeration",
+    design_ref="DESIGN.md §5 C08",
+    rule=("rapid state machine over a pool of <=4 well-formed node lists (ids from a five-letter pool, contains/dependsOn edges): union, "
+          "intersect, add, removeNodes (ids incl. strangers), relateNodeAtID / relateNodeListAtID (anchor present or absent), nodeGraph, "
+          "nodeSiblings, nodeDescendants, getNodesByPurlType, copy; invariant after every step on every pool member. Plus enumeration "
+          "of every normalised list up to the stated bound through every unary operation with every argument and every ordered pair "
+          "through the binary ones. Non-trivial = history with >=3 mutating steps that removes a root or an edge endpoint (random part), "
+          "enumerated list with an edge and a root (enumeration); distinct = digest of the whole history / of the enumeration code."),
+    assumptions=["arguments of in-place operations are passed as clones, so aliasing between pool members (C12's subject) does not leak into this check"],
+    level_text=("Sequences of editing operations are generated, shrunk as a whole, and the well-formedness (and, where promised, "
+                "normalisation) invariant plus the exact RemoveNodes postcondition are checked after every step against a set model; the "
+                "enumeration covers all small lists completely (exhaustive within the stated bound)."),
+    level_note="trusts rapid's state-machine driver and the harness's invariant/model code (harness/props/c08_test.go)",
+    jobs=[
+        {"test": "TestC08", "checks": 1500, "timeout": 300, "thorough": {"checks": 15000, "shards": 12, "timeout": 1500}},
+        {"test": "TestC08Exhaustive", "rapid": False, "exhaustive": True, "replay_test": "TestC08Replay", "timeout": 300,
+         "thorough": {"shards": 4, "timeout": 1700}},
+    ],
+    floor={"quick": 100, "thorough": 3000},
+)
+
+prop(
+    "C15",
+    title="Sub-graph extraction computes bounded reachability and terminates",
+    level="exploration",
+    technique="property-based testing against a BFS reference model (rapid) + bounded-exhaustive graph enumeration, watchdog for termination",
+    design_ref="DESIGN.md §5 C15",
+    rule=("rapid draws directed multigraphs over five ids (cycles, self loops, several edges per pair, dangling targets, arbitrary root sets, "
+          "three edge types), every start id incl. absent/empty, depth 1..6, plus a permutation of nodes/edges/roots. Enumeration: every "
+          "graph up to the bound x every root subset x every start x depths 1..5. Non-trivial = the graph has a cycle or a second root is "
+          "reachable from a present start; distinct = digest of graph wire bytes, start and depth (or enumeration code)."),
+    assumptions=["node identifiers are pairwise distinct"],
+    level_text=("NodeGraph, NodeSiblings and NodeDescendants are compared with an independent breadth-first reference (root boundaries, "
+                "levels) on node sets, followed edges, edge restriction and the root; monotonicity in depth and order independence are "
+                "metamorphic checks; every call runs under a 5 s watchdog with the case journalled beforehand."),
+    level_note="trusts rapid and the harness's reference traversal (harness/props/c15_test.go)",
+    jobs=[
+        {"test": "TestC15", "checks": 4000, "timeout": 300, "replay_test": "TestC15Replay", "thorough": {"checks": 40000, "shards": 12, "timeout": 1500}},
+        {"test": "TestC15Exhaustive", "rapid": False, "exhaustive": True, "replay_test": "TestC15Replay", "timeout": 300,
+         "thorough": {"shards": 4, "timeout": 1700}},
+    ],
+    floor={"quick": 500, "thorough": 5000},
+)
+
+prop(
+    "C16",
+    title="Lookups and node matching return exactly the documented matches",
+    level="exploration",
+    technique="property-based testing against reference implementations of each lookup and of the documented matching rule (rapid)",
+    design_ref="DESIGN.md §5 C16",
+    rule=("rapid draws lists of 0-6 nodes (unique ids) with hashes over 3 algorithms x 2 values (shared, conflicting, missing, nil vs empty "
+          "map), purls (none, a, b, empty, alternative spelling), FILE/PACKAGE kind, names and identifiers from tiny pools, and a probe node; "
+          "every call is repeated 5x on the list and on 4 random permutations. One stream in five also uses empty hash values, where only "
+          "order/iteration independence and membership are asserted (AddHash forbids empty values; the rule is undocumented there). "
+          "Non-trivial = >=2 hash candidates or a purl tie; distinct = digest of the list and probe."),
+    assumptions=["node identifiers are pairwise distinct", "hash values are non-empty in the stream compared with the documented rule"],
+    level_text=("Every lookup is compared with a straightforward reference; GetMatchingNode with the documented rule, and its verdict must be "
+                "identical across permutations of the list and repetitions (map iteration order)."),
+    level_note="trusts rapid and the harness's reference matcher (harness/props/c16_test.go)",
+    jobs=[{"test": "TestC16", "checks": 6000, "timeout": 300, "thorough": {"checks": 80000, "shards": 16, "timeout": 1500}}],
+    floor={"quick": 300, "thorough": 5000},
+)
+
+prop(
+    "C13",
+    title="Equality and checksums form a sound, order-insensitive equivalence",
+    level="exploration",
+    technique="property-based testing: metamorphic relations (permutation, single-leaf mutation by reflection) and an independent reference equality (rapid)",
+    design_ref="DESIGN.md §5 C13",
+    rule=("Nodes populated by reflection over the schema (every field, nested persons with contacts, external references with hashes); for each: "
+          "a permuted clone (every order-irrelevant collection shuffled), an unrelated node, and a clone with exactly one leaf changed (every leaf "
+          "of the schema reachable, elements added, dates moved by >=1 s). Small-domain triples make chance equalities frequent for "
+          "symmetry/transitivity. Node lists likewise (nodes, edges, targets, roots permuted; one leaf anywhere changed). Text without the "
+          "flattened encoding's metacharacters in the alarm-capable stream (KF-02); a second stream with them feeds only the finding counter. "
+          "Non-trivial = pair differing in exactly one leaf, or a non-identity permutation; distinct = digest of value, leaf path and mutated value."),
+    assumptions=["node identifiers inside a list are pairwise distinct", "the order of a person's contacts is not claimed to be irrelevant"],
+    level_text=("Reflexivity, symmetry, transitivity, Equal<=>Checksum, permutation invariance, discrimination of every single-leaf change and "
+                "soundness w.r.t. a reflection-based canonical form (Equal => same content, dates to the second) on generated values."),
+    level_note="trusts rapid, protobuf reflection and the harness's canonical form (harness/hx/refnode.go)",
+    jobs=[
+        {"test": "TestC13Node", "checks": 3000, "timeout": 300, "thorough": {"checks": 40000, "shards": 8, "timeout": 1500}},
+        {"test": "TestC13Triples", "checks": 3000, "timeout": 300, "thorough": {"checks": 100000, "shards": 2, "timeout": 1500}},
+        {"test": "TestC13Lists", "checks": 1500, "timeout": 300, "thorough": {"checks": 20000, "shards": 6, "timeout": 1500}},
+        {"test": "TestC13Findings", "rapid": False, "timeout": 60},
+    ],
+    floor={"quick": 1000, "thorough": 10000},
+)
+
+prop(
+    "C14",
+    title="Node diff is sound, complete and reconstructive",
+    level="exploration",
+    technique="property-based testing against a reflection-driven reference diff and a reconstruction round trip (rapid)",
+    design_ref="DESIGN.md §5 C14",
+    rule=("Ordered pairs (n, n') of schema-populated nodes where n' is a clone, a clone with 1/2/5 leaves changed, an independent node, a "
+          "permutation, an empty-versus-absent variant of every collection (incl. nested contacts and reference hashes) or a variant with "
+          "duplicated elements; text without the KF-02 metacharacters. Non-trivial = at least one attribute differs and some differing "
+          "attribute is a collection; distinct = digest of both nodes."),
+    assumptions=["list elements are identified by content; list- and map-valued attributes are compared as sets / maps; dates to the second"],
+    level_text=("Diff=nil iff the reference diff is empty, DiffCount equals the number of differing attributes, nothing is reported for "
+                "attributes that do not differ, and applying Added/Removed to the first node rebuilds the second (field-wise, by reflection)."),
+    level_note="trusts rapid, protobuf reflection and the harness's reference diff / apply (harness/props/c14_test.go)",
+    jobs=[{"test": "TestC14", "checks": 5000, "timeout": 300, "thorough": {"checks": 60000, "shards": 16, "timeout": 1500}}],
+    floor={"quick": 500, "thorough": 10000},
+)
